@@ -81,22 +81,32 @@ def defaultWOpts : List String := ["-", "-", "-", "-", "r", "0", "101", "46", "4
 
 def fmtOf (s : String) : Format := ⟨(ofHex s).getD 0⟩
 
-def runOp (feats : Features) (t : List String) : String :=
+/-- specification column -/
+def specOf (feats : Features) (t : List String) : String :=
   let op := t.headD ""
   let op := if op.startsWith "L" then (op.drop 1).toString else op
   match op, t.tail with
-  | "dpi", [ty, p, h] => s!"M - | S {specPI ty Format.standard (p = "1") (unhexBytes h)}"
-  | "pi", [ty, f, p, _nm, h] => s!"M - | S {specPI ty (fmtOf f) (p = "1") (unhexBytes h)}"
-  | "dwi", ty :: v :: _ => s!"M - | S {specWI ty Format.standard feats (parseIntD v)}"
-  | "wi", ty :: f :: v :: _ => s!"M - | S {specWI ty (fmtOf f) feats (parseIntD v)}"
-  | "dpf", [ty, p, h] => s!"M - | S {specPF ty Format.standard (p = "1") (pOptsOf defaultPOpts) (unhexBytes h)}"
-  | "pf", ty :: f :: p :: rest =>
-    s!"M - | S {specPF ty (fmtOf f) (p = "1") (pOptsOf (rest.take 6)) (unhexBytes (rest.getD 6 "_"))}"
+  | "dpi", [ty, p, h] => specPI ty Format.standard (p = "1") (unhexBytes h)
+  | "pi", [ty, f, p, _nm, h] => specPI ty (fmtOf f) (p = "1") (unhexBytes h)
+  | "dwi", ty :: v :: _ => specWI ty Format.standard feats (parseIntD v)
+  | "wi", ty :: f :: v :: _ => specWI ty (fmtOf f) feats (parseIntD v)
+  | "dpf", [ty, p, h] => specPF ty Format.standard (p = "1") (pOptsOf defaultPOpts) (unhexBytes h)
+  | "pf", ty :: f :: p :: rest => specPF ty (fmtOf f) (p = "1") (pOptsOf (rest.take 6)) (unhexBytes (rest.getD 6 "_"))
   | "dwf", ty :: b :: _ =>
-    s!"M - | S {if feats.compact then "-" else specWF ty Format.standard feats ((ofHex b).getD 0) (wOptsOf defaultWOpts)}"
+    if feats.compact then "-" else specWF ty Format.standard feats ((ofHex b).getD 0) (wOptsOf defaultWOpts)
   | "wf", ty :: f :: b :: rest =>
-    s!"M - | S {if feats.compact then "-" else specWF ty (fmtOf f) feats ((ofHex b).getD 0) (wOptsOf (rest.take 10))}"
-  | _, _ => "M - | S -"
+    if feats.compact then "-" else specWF ty (fmtOf f) feats ((ofHex b).getD 0) (wOptsOf (rest.take 10))
+  | _, _ => "-"
+
+/-- model column: the first handler that recognises the op answers.
+Each `Model/Ops/*.lean` exposes `handle : Features → List String → Option String`. -/
+def modelHandlers : List (Features → List String → Option String) := []
+
+def modelOf (feats : Features) (t : List String) : String :=
+  (modelHandlers.findSome? (fun h => h feats t)).getD "-"
+
+def runOp (feats : Features) (t : List String) : String :=
+  s!"M {modelOf feats t} | S {specOf feats t}"
 
 partial def loop (feats : Features) (h : IO.FS.Stream) (out : IO.FS.Stream) : IO Unit := do
   let line ← h.getLine
